@@ -61,6 +61,34 @@ fn main() {
             };
             std::process::exit(runner::check(scn.as_ref(), &opts));
         }
+        "digests" => {
+            // prints "<index> <event-log digest>" for the first n runs of a tier: two invocations
+            // (different processes, different worker counts) must print the same lines
+            let id = args.get(2).unwrap_or_else(|| usage());
+            let n: u64 = args.get(3).and_then(|s| s.parse().ok()).unwrap_or(1000);
+            let tier = if args.iter().any(|a| a == "thorough") { Tier::Thorough } else { Tier::Quick };
+            let Some(scn) = scen::by_id(id) else { usage() };
+            let seed = env_u64("VERIF_SEED").unwrap_or(20261003);
+            let threads = env_u64("VERIF_THREADS").unwrap_or(16) as usize;
+            let out = std::sync::Mutex::new(vec![0u64; n as usize]);
+            let next = std::sync::atomic::AtomicU64::new(0);
+            std::thread::scope(|s| {
+                for _ in 0..threads {
+                    s.spawn(|| loop {
+                        let i = next.fetch_add(1, std::sync::atomic::Ordering::Relaxed);
+                        if i >= n {
+                            break;
+                        }
+                        let (plan, tape) = runner::generate(scn.as_ref(), tier, seed, i);
+                        let o = scn.run(&plan, tape, false);
+                        out.lock().unwrap()[i as usize] = o.digest;
+                    });
+                }
+            });
+            for (i, d) in out.lock().unwrap().iter().enumerate() {
+                println!("{} {:016x}", i, d);
+            }
+        }
         "replay" => {
             let path = args.get(2).unwrap_or_else(|| usage());
             let text = std::fs::read_to_string(path).unwrap_or_else(|e| {
